@@ -198,4 +198,73 @@ def refExport (f : σ → Block → σ × Block) (inp : Input) (ispad : Bool) (T
 def seqOut (f : σ → Block → σ × Block) (inp : Input) (ispad : Bool) (T : Nat) (ws0 : Nat → σ) (n : Nat) : Bytes :=
   ((List.range n).map (refExport f inp ispad T ws0)).flatten
 
+/-! ### Conformance replay (driver protocol): the harness runs the real pipeline under a controlled scheduler and reports,
+for every scheduling interval, which thread ran and the shared observables afterwards; each interval must correspond to
+zero or more steps of the same model thread ending in a state with the same observables. -/
+
+/-- toy per-stream transformer used by the schedule harness on both sides: a counter, xor-ed into every byte -/
+def toyF (s : Nat) (b : Block) : Nat × Block := (s + 1, b.map (· ^^^ BitVec.ofNat 8 (s + 1)))
+
+def fnv1a (bs : Bytes) : Nat := bs.foldl (fun h b => ((h ^^^ b.toNat) * 16777619) % 4294967296) 2166136261
+
+def bstNum : BSt → Nat | .empty => 0 | .updating => 1 | .ready => 2 | .inv => 3
+
+/-- shared observables: per buffer (state, total, now, isfinal, hash of its first `total` blocks), the exported bytes, the stream counters -/
+def obsStr (T : Nat) (s : St Nat) : String :=
+  let bufs := (List.range T).map fun i =>
+    let b := s.buf i
+    s!"{bstNum b.st},{b.total},{b.now},{if s.fin i then 1 else 0},{fnv1a (joinBlocks ((s.dat i).take b.total))}"
+  let wss := (List.range T).map fun i => toString (s.ws i)
+  s!"{";".intercalate bufs}|{s.out.length},{fnv1a s.out}|{",".intercalate wss}"
+
+def parseLoad? (w : String) : Option (List Block × LSt) :=
+  match w.splitOn ":" with
+  | [l, h] =>
+    match unhex? h with
+    | none => none
+    | some bs =>
+      let (bl, t) := splitBlocks bs
+      if !t.isEmpty then none else
+      match l with
+      | "f" => some (bl, .full) | "F" => some (bl, .final) | "n" => some (bl, .nodata) | _ => none
+  | _ => none
+
+def parseInterval? (w : String) : Option (Option Nat × String) :=
+  match w.splitOn "/" with
+  | [t, o] => if t = "io" then some (none, o) else t.toNat?.map fun n => (some n, o)
+  | _ => none
+
+/-- advance thread `tid` by 0..fuel steps until the observables equal `want` -/
+def advance (inp : Input) (ispad : Bool) (T : Nat) (tid : Option Nat) (want : String) : Nat → St Nat → Option (St Nat)
+  | 0, s => if obsStr T s = want then some s else none
+  | fuel + 1, s =>
+    if obsStr T s = want then some s
+    else match step toyF inp ispad T s tid with
+      | none => none
+      | some s' => advance inp ispad T tid want fuel s'
+
+def replay (inp : Input) (ispad : Bool) (T : Nat) : Nat → St Nat → List (Option Nat × String) → String
+  | k, s, [] =>
+    s!"ok {k} done={if s.iopc = .done ∧ (List.range T).all (fun i => s.wpc i = .done) then 1 else 0} viol={if s.viol then 1 else 0} nexp={s.nexp}"
+  | k, s, (tid, want) :: rest =>
+    match advance inp ispad T tid want 8 s with
+    | some s' => replay inp ispad T (k + 1) s' rest
+    | none => s!"reject@{k} model={obsStr T s}"
+
+/-- `pipe <T> <ispad> <load> … ; <interval> …`; stream counters start at 100·i -/
+def driverPipe (ws : List String) : String :=
+  match ws with
+  | T :: ip :: rest =>
+    match T.toNat? with
+    | none => "bad-op"
+    | some T =>
+      let loads := rest.takeWhile (· ≠ ";")
+      let ivs := (rest.dropWhile (· ≠ ";")).drop 1
+      match loads.mapM parseLoad?, ivs.mapM parseInterval? with
+      | some ls, some is =>
+        let inp : Input := fun p => ls.getD p ([], .nodata)
+        replay inp (ip = "1") T 0 (init T (fun i => 100 * i)) is
+      | _, _ => "bad-op"
+  | _ => "bad-op"
+
 end Wencry.Model.Pipe
